@@ -556,7 +556,17 @@ class PVLParser(object):
                 "an Assignment-Statement."
             )
 
-        self.parse_around_equals(tokens)
+        try:
+            self.parse_around_equals(tokens)
+        except LexerError:
+            raise
+        except ValueError as err:
+            # The Parameter Name has already been consumed, so this
+            # cannot be left to the caller to try something else.
+            tokens.throw(
+                ValueError,
+                f'After the Parameter Name "{parameter_name}": {err}',
+            )
 
         try:
             # print(f'parameter name: {parameter_name}')
